@@ -203,13 +203,14 @@ class Index:
             if self.has_module(sub):
                 return ("module", sub)
             return self.resolve(imp[1], imp[2], _seen)
-        # submodule of a package
-        if mi.is_pkg and self.has_module(modname + "." + name):
-            return ("module", modname + "." + name)
+        # names bound by `from x import *` shadow a like-named submodule (pandapipes.pipeflow the function)
         for sm in mi.star:
             r = self.resolve(sm, name, _seen)
             if r is not None and r[0] != "external":
                 return r
+        # submodule of a package
+        if mi.is_pkg and self.has_module(modname + "." + name):
+            return ("module", modname + "." + name)
         return None
 
     def func_imports(self, fi):
